@@ -420,8 +420,8 @@ def with_timeout(seconds, fn):
 
     def on_alarm(signum, frame):
         raise _Timeout()
-    old = signal.signal(signal.SIGALRM, on_alarm)
-    signal.setitimer(signal.ITIMER_REAL, seconds)
+    old = signal.signal(signal.SIGPROF, on_alarm)           # CPU time, not wall clock
+    signal.setitimer(signal.ITIMER_PROF, seconds)
     try:
         return ('ok', fn())
     except _Timeout:
@@ -429,8 +429,8 @@ def with_timeout(seconds, fn):
     except Exception as ex:  # noqa
         return ('exc', py_impl.exc_class(ex), str(ex)[:200])
     finally:
-        signal.setitimer(signal.ITIMER_REAL, 0)
-        signal.signal(signal.SIGALRM, old)
+        signal.setitimer(signal.ITIMER_PROF, 0)
+        signal.signal(signal.SIGPROF, old)
 
 
 def directed_c02(chk):
@@ -669,9 +669,9 @@ def run_c06(tier):
                     continue
                 data = bytes.fromhex(enc['bytes'])
                 for kind, bs in malformed_stream(chk.rng, data, chk.scale(12, 40), chk.scale(4, 12)):
-                    t0 = time.perf_counter()
+                    t0 = time.process_time()   # CPU time of this process: a loaded machine must not look like a slow decoder
                     m, dec = decode_impl(c, bs, e)
-                    dt = time.perf_counter() - t0
+                    dt = time.process_time() - t0
                     slow = max(slow, dt)
                     fix = None
                     if 'val' in dec:
